@@ -256,7 +256,13 @@ inline std::string makeAsm(sim::Rng &r) {
     s += "LDAM d0\nLDBM 1\nSTAI 2\nLDAC 0\nSTAI 3\nLDAC 1\nOPR SVC\n";
   }
   for (int b = 0; b < nb; b++) {
-    switch (r.below(7)) {
+    switch (r.below(8)) {
+      case 6: {         // copy a stream to the console until it reads 255 (end of input)
+        std::string l = "L" + std::to_string(lab++), e = "L" + std::to_string(lab++), c = data();
+        s += l + "\nLDAC " + std::to_string(instreams[r.below(8)]) + "\nLDBM 1\nSTAI 2\nLDAC 2\nOPR SVC\nLDAM 1\nLDAI 1\nSTAM " + c + "\nLDBC 255\nOPR SUB\nBRZ " + e + "\n";
+        s += "LDAM " + c + "\nLDBM 1\nSTAI 2\nLDAC 0\nSTAI 3\nLDAC 1\nOPR SVC\nBR " + l + "\n" + e + "\n";
+        break;
+      }
       case 0: case 1:   // put a character; sometimes the call is simply repeated (areg and the slots survive it)
         s += "LDAC " + std::to_string(33 + r.below(90)) + "\nLDBM 1\nSTAI 2\nLDAC " + std::to_string(streams[r.below(8)]) + "\nSTAI 3\nLDAC 1\nOPR SVC\n";
         if (r.chance(1, 4)) { int n = 1 + (int)r.below(3); for (int q = 0; q < n; q++) s += "OPR SVC\n"; }
